@@ -268,6 +268,9 @@ def _run_regress(mod):
   return [res]
 
 
+SKIPPED_FUZZ = []
+
+
 def _run_fuzz(mod, tier, seedv, only, errors):
   """Coverage-guided tier: atheris/libFuzzer campaigns over the same Hypothesis tests
   (vlib/fuzz_child.py), 16 processes per clause; results come back as clause '<name>@atheris'."""
@@ -275,6 +278,14 @@ def _run_fuzz(mod, tier, seedv, only, errors):
   import subprocess
   import tempfile
   out = []
+  import importlib.util
+  if importlib.util.find_spec("atheris") is None:
+    # not installable here (./check tries the offline wheelhouse first): the coverage-guided tier is
+    # left out and the evidence says so; the Hypothesis tiers of the same clauses decide the exit code
+    if any(getattr(c, "fuzz", {}).get(tier, 0) for c in mod.CLAUSES if c.kind == "hypothesis"):
+      print("NOTE property=%s atheris is not available: coverage-guided tier skipped" % mod.ID)
+      SKIPPED_FUZZ.append(mod.ID)
+    return out
   for ci, clause in enumerate(list(mod.CLAUSES)):
     total = getattr(clause, "fuzz", {}).get(tier, 0) if clause.kind == "hypothesis" else 0
     if not total or (only and clause.name not in only):
@@ -506,7 +517,9 @@ def run_property(mod, tier, seedv, only=None, jobs=None):
                   for name, m in per.items()},
       "known_findings_excluded": sorted(open_findings),
     },
-    "assumptions": list(mod.ASSUMPTIONS),
+    "assumptions": list(mod.ASSUMPTIONS) + (
+      ["atheris could not be imported or installed in this run: the coverage-guided tier was skipped"]
+      if mod.ID in SKIPPED_FUZZ else []),
     "wall_s": round(time.time() - t0, 2),
     "violations": len(violations),
   }
